@@ -15,6 +15,7 @@ SPEC = {
         "the status read. The pipeline hand-over moves the previous stage's read end out (Option::take) into the "
         "next stage. Atomicity of creation w.r.t. forks on other threads (pipe2(O_CLOEXEC)) is checked too."
         " Thorough tier, windows: set_inheritable(f, b) sets HANDLE_FLAG_INHERIT to exactly b."
+        " R08.5: after each dup2 in the child the source descriptor is marked close-on-exec (0..2 excepted), so a shared file is not inherited twice (reported D14)."
     ),
     "not_decided": "the contents of real descriptor tables; EOF timing; descriptors the *caller* leaves inheritable.",
     "trusted_base": ["rustc MIR", "POSIX: FD_CLOEXEC descriptors are closed by exec; pipe() returns inheritable descriptors",
@@ -230,6 +231,53 @@ def run(ctx):
         okm = okm and src[0] == "field" and src[2] == "stdout" and M.strip(src[1])[0] == "call" and ("index" in M.strip(src[1])[1].lower() or M.strip(src[1])[1].endswith("::last_mut"))
         ctx.ob("R08.4", "stage-stdin=take(prev.stdout)", okm, pp.loc(bb), "stage stdin = %s (must be prev.stdout.take().unwrap(): the parent keeps no copy)" % M.term_str(a)[:160])
 
+    # ---- R08.5 the child keeps no second copy of a stream's source descriptor across exec --------------------------------------
+    # dup2(src, k) leaves src open.  Dropping the child's Rc<File> closes it only if that was the last reference — not when the file
+    # is shared (the stderr sink of a pipeline, an RcFile the caller still holds, Merge): the new program then owns the pipe's write end
+    # twice, and closing stream k no longer gives the reader end-of-file.  So: after each dup2 the source is marked close-on-exec
+    # (unless it is itself one of the descriptors 0..2, which later dup2 calls and the program may rely on).
+    de = prog.one("PopenOsImpl>::do_exec")
+    Tde = M.Terms(de)
+    d2 = de.calls_to(lambda f: M.callee_str(f) == "posix::dup2")
+    ctx.floor("R08.5", "dup2 sites in do_exec", len(d2), 3)
+
+    def marks_cloexec(bb_, t_):
+        """does this call mark its File argument close-on-exec?  returns the stream term, or None"""
+        nm = M.callee_str(t_["f"])
+        a_ = [Tde.operand(x) for x in t_["args"]]
+        if nm == "popen::os::set_inheritable" and len(a_) == 2 and const_of(a_[1]) == 0:
+            return a_[0]
+        g = prog.fns.get(nm)
+        if g is not None and len(a_) == 1:
+            Tg = M.Terms(g)
+            inner = [(b2, t2) for b2, t2 in g.calls() if M.callee_str(t2["f"]) == "popen::os::set_inheritable"]
+            if len(inner) == 1:
+                ia = [Tg.operand(x) for x in inner[0][1]["args"]]
+                isp = M.noref(M.strip(ia[0], also=("<std::rc::Rc<T, A> as std::ops::Deref>::deref", "<std::rc::Rc<T> as std::ops::Deref>::deref"))) == ("param", 1, g.local_name(1))
+                # the only admissible way to skip the marking inside the helper: the descriptor is one of 0..2
+                low = bool_edges(g, Tg, lambda c: c[0] == "bin" and c[1] == "Gt" and const_of(c[3]) == 2 and M.contains(c[2], lambda u: u[0] == "call" and u[1].endswith("as_raw_fd")), True) + \
+                    bool_edges(g, Tg, lambda c: c[0] == "bin" and c[1] == "Ge" and const_of(c[3]) == 3 and M.contains(c[2], lambda u: u[0] == "call" and u[1].endswith("as_raw_fd")), True)
+                oke = try_ok_edges(g, Tg, lambda c: c[1] == "popen::os::set_inheritable")
+                rets_ok = all(dominated_by_edges(g, r_, oke + [e_ for e_ in _neg_edges(g, Tg, low)]) for r_ in _ok_returns(g))
+                if isp and const_of(ia[1]) == 0 and (not low or dominated_by_edges(g, inner[0][0], low)) and rets_ok:
+                    return a_[0]
+        return None
+    stream_of = lambda t_: M.noref(M.strip(t_, also=("<std::rc::Rc<T, A> as std::ops::Deref>::deref", "<std::rc::Rc<T> as std::ops::Deref>::deref", "<std::rc::Rc<T> as std::os::fd::AsRawFd>::as_raw_fd", "<std::rc::Rc<T, A> as std::os::fd::AsRawFd>::as_raw_fd", "<std::fs::File as std::os::fd::AsRawFd>::as_raw_fd")))
+    marks = [(bb_, stream_of(m_)) for bb_, t_ in de.calls() for m_ in [marks_cloexec(bb_, t_)] if m_ is not None]
+    execs = [bb_ for bb_, t_ in de.calls() if any(Tde.operand(a_) == ("param", 1, de.local_name(1)) or M.noref(Tde.operand(a_)) == ("param", 1, de.local_name(1)) for a_ in t_["args"][:1]) and "call_once" in M.callee_str(t_["f"])]
+    for bb_, t_ in d2:
+        src = stream_of(Tde.operand(t_["args"][0]))
+        k = const_of(Tde.operand(t_["args"][1]))
+        oke = try_ok_edges(de, Tde, lambda c, bb_=bb_: c[1] == "posix::dup2" and c[3] == bb_)
+        mine = [mb for mb, ms in marks if ms == src and oke and dominated_by_edges(de, mb, oke)]
+        ok = bool(mine) and bool(oke) and all(any(dominated_by_blocks(de, r_, [mb], start=oke[0][1]) for mb in mine) or not (r_ in de.reachable(oke[0][1])) for r_ in _ok_returns(de) + execs)
+        ctx.ob("R08.5", "dup2->%s.source-closed-on-exec" % k, ok, de.loc(bb_),
+               "after dup2(src, %s) the source descriptor must be marked close-on-exec (set_inheritable(&src, false), possibly skipping descriptors 0..2) before the "
+               "program is executed: a shared file (pipeline stderr sink, RcFile) is not closed by dropping the child's reference, so the new program would hold "
+               "a second copy of the pipe's write end and its reader would not see end-of-file when stream %s is closed" % (k, k))
+
+
+
 
 def _flagged(fn, bb):
     for p in fn.preds().get(bb, []):
@@ -238,9 +286,22 @@ def _flagged(fn, bb):
             return True
     return False
 
+def _ok_returns(fn):
+    return [bb for bb in fn.live_blocks() for s in fn.blocks[bb]["stmts"] if s["k"] == "assign" and s["p"]["l"] == 0 and not s["p"]["proj"] and s["r"].get("variant") == "Ok"]
+
+
+def _neg_edges(fn, T, pos_edges):
+    """the sibling (false) edges of the given true edges"""
+    out = []
+    for (b, tgt) in pos_edges:
+        for s_ in fn.succs(b):
+            if s_ != tgt:
+                out.append((b, s_))
+    return out
+
 
 def run_thorough(ctx):
-    deep_census(ctx, "R08.2", ["pipe", "pipe2", "socketpair"], {"pipe": ["posix::pipe"]})
+    deep_census(ctx, "R08.2", ["pipe", "pipe2", "socketpair"], {"pipe": ["posix::pipe"], "pipe2": ["posix::pipe"]})
     deep_census(ctx, "R08.1", ["fcntl"], {"fcntl": ["posix::fcntl", "std::os::fd::BorrowedFd::<'_>::try_clone_to_owned", "std::sys::fs::unix::debug_assert_fd_is_open", "std::sys::fs::unix::debug_path_fd::get_mode"]})
     # the cfg(windows) sibling of set_inheritable
     import winrules
